@@ -7,6 +7,7 @@ import (
 
 	"github.com/gregoryv/mq"
 
+	"verif/gen"
 	"verif/link"
 	"verif/ref"
 	"verif/sim"
@@ -241,6 +242,33 @@ func runC15(c *sim.Ctx) *sim.Violation {
 		if b, err, pi := encodeReal(pb); err == nil && pi == nil && !bytes.Equal(b, frame) {
 			return sim.V("C15/public-api/subscription-identifiers-in-publish/encoding", "PUBLISH with subscription identifiers %v encodes as %x, the specification gives %x", ids, b, frame)
 		}
+	}
+	// a property length that needs the four-byte form (>= 2 097 152): a packet whose
+	// property section holds 33+ user properties of ~64 KiB each
+	if t.Bool(1, 150) {
+		typ := []byte{ref.PubAck, ref.Publish, ref.Disconnect, ref.ConnAck}[t.Int(4)]
+		a := &ref.AP{Type: typ, Flags: ref.ReservedFlags(typ), PacketID: 3, Form: 2}
+		if typ == ref.Publish {
+			a.Topic = []byte("t")
+			a.PacketID = 0
+		}
+		g := gen.NewG(t, c.Thorough, 0)
+		n := 33 + t.Int(4)
+		for i := 0; i < n; i++ {
+			a.Props = append(a.Props, ref.Prop{ID: 0x26, K: []byte("k"), V: g.Str(65535 - t.Int(3))})
+		}
+		frame, _ := ref.Encode(a)
+		o := ReadOne(link.NewReader(c, frame, link.Mode{}))
+		if o.Kind != "packet" {
+			return sim.V("C15/public-api/four-byte-property-length/rejected", "%s with a property section of %d user properties of ~64 KiB (property length in the four-byte form, frame of %d bytes): %s", a.TypeName(), n, len(frame), o)
+		}
+		if name, wv, gv := ref.FirstDiff(a.Canon(), o.Canon); name != "" {
+			return sim.V("C15/public-api/four-byte-property-length/"+name, "accessor %s: want %q got %q", name, wv, gv)
+		}
+		if b, err, pi := encodeReal(o.P); err != nil || pi != nil || !bytes.Equal(b, frame) {
+			return sim.V("C15/public-api/four-byte-property-length/re-encode", "re-encoding a packet with a four-byte property length: err=%v panic=%v, %d bytes vs %d", err, pi, len(b), len(frame))
+		}
+		c.Count("probe.four-byte-property-length")
 	}
 	rlTarget := []int{0, 1, 127, 128, 129, 16383, 16384, 16385, 70000}[t.Int(9)]
 	if rlTarget >= 5 {
